@@ -390,8 +390,10 @@ def incomplete_test(ctx, R3, dv):
             continue
         for x in ast.walk(n.ast):
             if isinstance(x, ast.Compare) and len(x.ops) == 1 and isinstance(x.ops[0], (ast.Gt, ast.GtE, ast.Lt, ast.LtE)):
-                l, r = x.left, x.comparators[0]
-                ls, rs = dv.sources(l, n.id), dv.sources(r, n.id)
+                from sa.guards import resolved as _resolved
+                # (an operand first put into a local that is assigned once is that expression)
+                l, r = _resolved(dv.fn, x.left), _resolved(dv.fn, x.comparators[0])
+                ls, rs = dv.sources(x.left, n.id), dv.sources(x.comparators[0], n.id)
                 for a, b, asrc, bsrc in ((l, r, ls, rs), (r, l, rs, ls)):
                     if "BODYLEN" in asrc and f"len({dv.buf})" in unparse(b):
                         found += 1
